@@ -107,7 +107,10 @@ ByteEdits(b) ==
   ({[b EXCEPT ![i] = c] : i \in 1..Len(b), c \in {SLASH, COLON, 88, 32, 0, 200}}
    \cup {[b EXCEPT ![i] = Flip(b[i])] : i \in 1..Len(b)}
    \cup {RemAt(b, i) : i \in 1..Len(b)}
-   \cup {InsAt(b, i, c) : i \in 1..(Len(b) + 1), c \in {SLASH, COLON, 78, 32}}) \ {b}
+   \cup {InsAt(b, i, c) : i \in 1..(Len(b) + 1), c \in {SLASH, COLON, 78, 32}}
+   \* wrapping punctuation and line ends before the first and after the last byte
+   \cup {InsAt(b, i, c) : i \in {1, Len(b) + 1},
+                           c \in {40, 41, 91, 93, 123, 125, 34, 39, 60, 62, 44, 59, 46, 45, 95, 43, 61, 35, 92, 9, 13, 10}}) \ {b}
 
 Body(ver, p) == IF ver = "4.0" THEN JoinLead(p, SLASH) ELSE Join(p, SLASH)
 
